@@ -5,6 +5,7 @@ PROP = {
     "lean_targets": ["Sonic.Props.C13"],
     "theorems": [
         "Sonic.Props.C13.C13_no_leak",
+        "Sonic.Props.C13.C13_no_leak_table",
         "Sonic.Props.C13.C13_handed_only_accept",
         "Sonic.Props.C13.C13_ok_owns_exactly",
         "Sonic.Props.C13.C13_calls_justified",
@@ -12,12 +13,15 @@ PROP = {
         "Sonic.Props.C13.C13_close_exact",
         "Sonic.Props.C13.C13_close_twice_safe",
         "Sonic.Props.C13.C13_no_foreign_close",
+        "Sonic.Props.C13.C13_model_accepted",
         "Sonic.Props.C13.C13_close_exact_model",
         "Sonic.Props.C13.C13_unguarded_closes_foreign",
         "Sonic.Props.C13.C13_lowest_free",
         "Sonic.Props.C13.C13_registered_while_interested",
         "Sonic.Model.Loop.step_reg",
         "Sonic.Model.Resources.step_inv",
+        "Sonic.Model.Resources.step_refines",
+        "Sonic.Model.Resources.runFds_restores",
     ],
     "runs": [{
         "component": "fds",
